@@ -248,11 +248,14 @@ pub fn step(op: Op, p: &EdwardsPoint, m: &Pt, aj: &Option<(U, u8)>, pool: &[Know
             Op::Cofactor => (p.mul_by_cofactor(), m.dbl().dbl().dbl(), aj_mul(aj, 8)),
             Op::Recompress => (p.compress().decompress().expect("own encoding must decompress"), *m, aj.clone()),
             Op::SubSelf => (p - p, ed::ID, aj.as_ref().map(|_| (U::ZERO, 0))),
+            #[cfg(feature = "zeroize")]
             Op::Zeroize => {
                 let mut z = *p;
                 zeroize::Zeroize::zeroize(&mut z);
                 (z, ed::ID, aj.as_ref().map(|_| (U::ZERO, 0)))
             }
+            #[cfg(not(feature = "zeroize"))]
+            Op::Zeroize => unreachable!("built without the zeroize feature"),
             Op::Sum(i) => {
                 let q = pool[i].real;
                 let by_ref: EdwardsPoint = [*p, q, *p].iter().sum();
@@ -304,7 +307,9 @@ impl Model for Machine {
         if s.bad.is_some() || s.depth >= self.max_depth {
             return;
         }
-        out.extend([Op::Neg, Op::Double, Op::GroupDouble, Op::Cofactor, Op::Recompress, Op::SubSelf, Op::Zeroize]);
+        out.extend([Op::Neg, Op::Double, Op::GroupDouble, Op::Cofactor, Op::Recompress, Op::SubSelf]);
+        #[cfg(feature = "zeroize")]
+        out.push(Op::Zeroize);
         for i in 0..self.pool.len() {
             out.extend([Op::Add(i), Op::Sub(i), Op::RSub(i)]);
             if s.depth == 0 {
